@@ -886,7 +886,8 @@ def r01_6(run):
                         run.ob('R01.6', init, where, '%s + %s line (code %s) -> %s / %s' % (sname, cname, code_txt, want[0], want[1]), ok, slot='fsm:%s:%s' % (sname, cname),
                                message='in state %s the %s line %r goes to %s via %s (control-spec 2.3 wants %s / %s)' % (sname, cname, line_, val[0], val[1], want[0], want[1]))
     # the machine starts in IDLE and the unused first state is never entered
-    st = [n for n in walk_unit(init) if isinstance(n, ast.Assign) and dotted(n.targets[0]) == 'self.fsm.state']
+    fsm_names = set(['self.fsm']) | set(dotted(a.value) for a in walk_unit(init) if isinstance(a, ast.Assign) and dotted(a.targets[0]) == 'self.fsm' and isinstance(a.value, ast.Name))
+    st = [n for n in walk_unit(init) if isinstance(n, ast.Assign) and isinstance(n.targets[0], ast.Attribute) and n.targets[0].attr == 'state' and dotted(n.targets[0].value) in fsm_names]
     ok = len(st) == 1 and tab.states.get(dotted(st[0].value)) == 'IDLE'
     run.ob('R01.6', init, init.node, 'the line machine starts in IDLE', ok, slot='initial', message='initial state is %s' % [src(x.value) for x in st])
     # spaghetti semantics relied upon: first match wins; a handler returning None keeps the table's next state
@@ -895,9 +896,26 @@ def r01_6(run):
     ok = len(loops) == 1 and any(isinstance(x, ast.Return) for x in ast.walk(loops[0]))
     run.ob('R01.6', sp, sp.node, 'State.process returns at the first matching transition', ok, slot='first-match', message='State.process no longer first-match')
     th = run.idx.find_method(run.idx.cls('Transition', 'spaghetti'), 'handle')
-    ok = any(isinstance(r, ast.Return) and dotted(r.value) == 'self.next_state' for r in walk_unit(th)) and \
-        any(isinstance(n, ast.Compare) and is_none(n.comparators[0]) and isinstance(n.left, ast.Name) and isinstance(n.ops[0], ast.Is) for n in walk_unit(th))
-    run.ob('R01.6', th, th.node, 'a handler returning None moves to the transition\'s next state', ok, slot='handle-none', message='Transition.handle changed')
+    # evaluated, not matched: for (no handler | handler returning None | handler returning a state) the result is
+    # (the declared next state | the declared next state | the handler's state)
+    for hv, rv, want, label in (('NONE', 'NONE', 'NEXT', 'no handler'), ('H', 'NONE', 'NEXT', 'a handler returning None'), ('H', 'S', 'S', 'a handler returning a state')):
+        def leaf(e, hv=hv, rv=rv):
+            d = dotted(e)
+            if d == 'self.next_state':
+                return 'NEXT'
+            if d == 'self.handler':
+                return hv
+            if isinstance(e, ast.Call) and dotted(e.func) == 'self.handler':
+                if hv == 'NONE':
+                    raise MiniUndecided('calls a missing handler')
+                return rv
+            return None
+        try:
+            got = mini_interp(th.node, leaf)
+        except MiniUndecided as e:
+            raise Undecided('Transition.handle: %s' % e)
+        run.ob('R01.6', th, th.node, 'Transition.handle with %s yields %s' % (label, 'the declared next state' if want == 'NEXT' else "the handler's state"), got == want,
+               slot='handle-none', message='Transition.handle with %s returns %s' % (label, got))
     # handlers of the three accumulate/start kinds return None (they never redirect the machine)
     for hn in ('_start_command', '_accumulate_response', '_accumulate_multi_response', '_broadcast_response'):
         hu = U(run, hn)
